@@ -154,6 +154,17 @@ def _tuple_split(stmts, func):
                     out.append(na)
                 changed = True
                 continue
+        if isinstance(s, ast.Assign) and len(s.targets) == 1 and isinstance(s.targets[0], ast.Tuple) \
+                and isinstance(s.value, ast.Tuple) and len(s.targets[0].elts) == len(s.value.elts) \
+                and all(isinstance(t, ast.Attribute) and isinstance(t.value, ast.Name) for t in s.targets[0].elts) \
+                and all(isinstance(e, (ast.Name, ast.Constant)) for e in s.value.elts):
+            # self.a, self.b = (x, y) with plain local names / constants on the right: attribute stores cannot change them
+            for t, e in zip(s.targets[0].elts, s.value.elts):
+                t2 = copy.deepcopy(t)
+                t2.ctx = ast.Store()
+                out.append(ast.copy_location(ast.Assign(targets=[t2], value=e), s))
+            changed = True
+            continue
         out.append(s)
     return out if changed else None
 
